@@ -1748,6 +1748,8 @@ func (w *Walker) builtin(name string, args []*Term, in ssa.Instruction, rt types
 			as = append([]*Term{}, base.Args...)
 		}
 		as = append(as, mel...)
+		// appending to storage that was not allocated on this path may write into the caller's backing array
+		w.event(Event{Kind: "append", Name: base.String(), Args: args, Pos: in.Pos(), Instr: in, Fn: fn, Depth: depth})
 		return &Term{Op: "append", Args: as, Typ: rt}
 	case "copy":
 		w.event(Event{Kind: "copy", Name: "copy", Args: args, Pos: in.Pos(), Instr: in, Fn: fn, Depth: depth})
